@@ -996,23 +996,26 @@ class Executor:
             if op == 'AddWithOverflow':
                 r = x + y
                 if s:
-                    ov = z3.Not(z3.And(z3.BVAddNoOverflow(x, y, True), z3.BVAddNoUnderflow(x, y)))
+                    ov = z3.SignExt(1, x) + z3.SignExt(1, y) != z3.SignExt(1, r)
                 else:
-                    ov = z3.Not(z3.BVAddNoOverflow(x, y, False))
+                    ov = z3.ULT(r, x)
                 return Agg('tuple', 'ovf', {0: Int(r, s), 1: Bool(ov)})
             if op == 'SubWithOverflow':
                 r = x - y
                 if s:
-                    ov = z3.Not(z3.And(z3.BVSubNoOverflow(x, y), z3.BVSubNoUnderflow(x, y, True)))
+                    ov = z3.SignExt(1, x) - z3.SignExt(1, y) != z3.SignExt(1, r)
                 else:
                     ov = z3.ULT(x, y)
                 return Agg('tuple', 'ovf', {0: Int(r, s), 1: Bool(ov)})
             if op == 'MulWithOverflow':
                 r = x * y
+                # widening multiplication (portable SMT-LIB: the bvumul_noovfl predicates are not known to z3 4.8 / cvc5 1.0)
                 if s:
-                    ov = z3.Not(z3.And(z3.BVMulNoOverflow(x, y, True), z3.BVMulNoUnderflow(x, y)))
+                    wide = z3.SignExt(w, x) * z3.SignExt(w, y)
+                    ov = wide != z3.SignExt(w, r)
                 else:
-                    ov = z3.Not(z3.BVMulNoOverflow(x, y, False))
+                    wide = z3.ZeroExt(w, x) * z3.ZeroExt(w, y)
+                    ov = z3.Extract(2 * w - 1, w, wide) != 0
                 return Agg('tuple', 'ovf', {0: Int(r, s), 1: Bool(ov)})
             if op == 'Cmp':
                 lt = x < y if s else z3.ULT(x, y)
